@@ -24,8 +24,41 @@ type occurrence struct {
 
 // occurrences walks the final destination along the schema and records, for
 // every node id, the address and issue path of each place the node governs.
+// canonicalIDs maps every node id to the id of the node whose callbacks actually exist: for a schema object
+// shared between several places (ShareID) that is the first place it was built for (identical subtrees have
+// identical preorder shapes, so ids differ by a constant offset).
+func canonicalIDs(root *model.Node) map[int]int {
+	canon := map[int]int{}
+	first := map[int]int{}
+	var rec func(n *model.Node, delta int)
+	rec = func(n *model.Node, delta int) {
+		if n.ShareID != 0 && delta == 0 {
+			if f, ok := first[n.ShareID]; ok {
+				delta = f - n.ID
+			} else {
+				first[n.ShareID] = n.ID
+			}
+		}
+		canon[n.ID] = n.ID + delta
+		if n.Elem != nil {
+			rec(n.Elem, delta)
+		}
+		for _, f := range n.Fields {
+			rec(f.Node, delta)
+		}
+	}
+	rec(root, 0)
+	return canon
+}
+
+var c12Canon map[int]int // set per evaluation (single goroutine)
+
 func occurrences(n *model.Node, v reflect.Value, path string, out map[int][]occurrence) {
-	out[n.ID] = append(out[n.ID], occurrence{addr: v.Addr().Pointer(), path: path})
+	id := n.ID
+	if c, ok := c12Canon[id]; ok {
+		id = c
+	}
+	out[id] = append(out[id], occurrence{addr: v.Addr().Pointer(), path: path})
 	switch n.Kind {
 	case model.KStruct:
 		for _, f := range n.Fields {
@@ -71,6 +104,7 @@ func propC12(c model.Case) hh.Verdict {
 	}
 	nodes := map[int]*model.Node{}
 	c.Root.Walk(func(n *model.Node) { nodes[n.ID] = n })
+	c12Canon = canonicalIDs(c.Root)
 	occ := map[int][]occurrence{}
 	occurrences(c.Root, dest.Elem(), "", occ)
 	wantCtx := map[string]string{}
@@ -184,7 +218,7 @@ func propC12(c model.Case) hh.Verdict {
 	if res.NoIssues() {
 		// struct schemas are never absent: each occurrence must have run all its PostTransforms
 		for id, n := range nodes {
-			if n.Kind != model.KStruct || len(n.Posts) == 0 {
+			if n.Kind != model.KStruct || len(n.Posts) == 0 || c12Canon[id] != id {
 				continue
 			}
 			for _, o := range occ[id] {
@@ -328,5 +362,24 @@ func TestC12(t *testing.T) {
 			return c
 		}
 		hh.Sub(h, mode, h.N(25000, 120000), gen, propC12)
+		// ONE schema object at several places whose destination types differ in field order / tags
+		mode := mode
+		hh.Sub(h, "shared-"+mode, h.N(5000, 30000), func(rt *rapid.T) model.Case {
+			scfg := model.DefaultCfg(mode)
+			scfg.MaxDepth, scfg.NoCustom, scfg.POpts = 1, true, 0
+			scfg.PostBehaviours = []string{"record", "mutate"}
+			scfg.PPost, scfg.PVary, scfg.PAbsent, scfg.PJunk = 0.3, 0.3, 0.1, 0.03
+			g := model.NewGen(rt, scfg)
+			root := sharedRoot(rt, g)
+			addRecorders(root)
+			typed := g.GenTyped(root)
+			c := model.Case{Root: root, Exec: model.Exec{Mode: mode}}
+			if mode == "parse" {
+				c.Input, _ = g.Render(root, typed, "root")
+			} else {
+				c.Input = typed
+			}
+			return c
+		}, propC12)
 	}
 }
